@@ -742,6 +742,7 @@ class Interp:
 
     def do_await(self, v, fr, node=None):
         if self.await_hook is not None:
+            self.awaiting = v
             self.await_hook(self, node, fr)
         if isinstance(v, CoroVal):
             if v.runner is not None:
